@@ -191,6 +191,9 @@ def _cases(ctx):
     ctx.rng.shuffle(cases)
     must = [c for c in cases if (c["head"] in ("parts_rev", "parts_tail", "parts_20") and c["cut"] == 1 and c["how"] == "persist" and c["term"] in ("id", "sum") and c["tail"] in ("proj_ab", "add1"))
             or (c["how"] == "delayed_nv" and c["cut"] == 1 and c["tail"] in ("parts_tail", "parts_20", "tail2c") and c["term"] == "id" and c["head"] in ("add1", "filt_a"))]
+    # a partition selection above an overlap operation, cut between the two (D82)
+    must += [c for c in cases if c["head"] in ("shift1", "cumsum") and c["tail"] in ("parts_tail", "parts_20") and c["cut"] == 1
+             and c["how"] in ("persist", "delayed") and c["term"] == "id"]
     must = must + [dict(c, layout=3) for c in must if c["how"] == "persist"]
     if ctx.quick:
         cases = must + cases[:220]
